@@ -15,7 +15,8 @@ META = {
     "level_note": ("Trusted: Lean kernel; keymap translator; the hand-written model is tied by differential runs only (bounded by the "
                    "generator). UTF-8 boundary clause: proved for every composition under ASCII input and character-starting candidate texts (C02.preedit_utf8_boundaries), and monitored on the implementation. Processors outside the model "
                    "(ascii_composer, recognizer, key_binder, punctuator, chord_composer) and AutoSelectPreviousMatch are covered only "
-                   "by the context-layer lemmas plus monitors on stock schemas (thorough tier)."),
+                   "by the context-layer lemmas plus the WellFormed monitor on a stock-component schema (luna_pinyin's component list over "
+                   "tiny dictionaries; both tiers, no model behind those runs)."),
     "design_ref": "DESIGN.md §2 M-session, §3 C02",
 }
 
@@ -26,7 +27,7 @@ def monitor(state, op, o):
 
 def run(c):
     quick = c.tier == "quick"
-    n_hist, n_ops = (48, 120) if quick else (400, 300)
+    n_hist, n_ops = (72, 120) if quick else (600, 300)
     rc, out = vlib.sh([sys.executable, os.path.join(vlib.ROOT, "gen", "keymaps.py"), vlib.REPO,
                        os.path.join(vlib.LEAN, "RimeModel", "Gen", "Keymaps.lean")])
     gen_ok = rc == 0
@@ -43,6 +44,13 @@ def run(c):
     ws = sc.make_workspace(os.path.join(c.work, "ws"), list(sc.SCHEMAS))
     hs, rows_for = sc.standard_histories(c, n_hist, n_ops)
     stats = sc.session_check(c, "C02", monitor, hs, rows_for, exe, ws, "WellFormed(view)")
+    # stock components the model does not port (punctuator, ascii_composer, recognizer, key_binder, reverse lookup, real
+    # translators and filters): the property is monitored on the implementation's observations, no model behind it
+    from checks import c01_common as c1
+    fws = c1.make_full_workspace(os.path.join(c.work, "fws"), user_dict=False)
+    n_sh, n_sops = (24, 150) if quick else (300, 300)
+    sst = sc.stock_monitor_check(c, "C02", monitor, [sc.gen_stock_history(c.rng, n_sops) for _ in range(n_sh)], exe, fws,
+                                 "WellFormed(view)")
     if not audit["ok"] and not c.violations:
         c.report("C02:proof", "proof obligation no longer checks: %s" % "; ".join("%s: %s" % f for f in audit["failures"])[:600],
                  {"kind": "proof", "broken_theorems": audit["failures"], "lean_log": audit["log"][-3000:]}, no_input=True)
@@ -54,7 +62,7 @@ def run(c):
                 "observations_with_menu": stats["menus"], "observations_composing": stats["composing"],
                 "commits_read": stats["commits"], "model_impl_disagreements": stats["diffs"],
                 "monitor_violations": stats["violations"], "sanitizer_aborts": stats["crashes"],
-                "proof_failures": audit["failures"]})
+                "proof_failures": audit["failures"], "stock_component_monitoring": sst})
     if not quick:
         # how much of the C++ the model ports do the correspondence scripts of this run execute (gcov build; measurement, not a verdict)
         try:
